@@ -866,4 +866,3 @@ func main() {
 		"non-trivial when some Dequeue returned a value; concurrent: one case = one recorded history (P,C in 1..16, unique values, stamps from one atomic counter), "+
 		"non-trivial when >= 2 goroutines took part; distinct = distinct case text")
 }
-
